@@ -45,11 +45,11 @@ META = {
 def h_standard(ctx: Any, code: str, n: int, depth: int, mode: str = 'T',
                trim: bool = True, deck: str = 'identity', do_finish: bool = True,
                rake_d: int = 0, boards: int = 1, ante_kind: str = 'uniform',
-               part: Any = None) -> None:
+               part: Any = None, concrete_blinds: bool = False) -> None:
     C.native_hands()
     C.set_deck_order(deck)
     cfg = cfg_standard(ctx, code, n, mode=mode, trim=trim, rake_d=rake_d, boards=boards,
-                       ante_kind=ante_kind)
+                       ante_kind=ante_kind, concrete_blinds=concrete_blinds)
     ctx.constrain(part)
     C.set_monitor(C.conservation_monitor(ctx))
     try:
@@ -94,6 +94,17 @@ def jobs(tier: str, seed: int) -> list[dict]:
                         params=dict(code='NT', n=2, depth=2, mode='C', deck=deck,
                                     ante_kind='none', _preset={'d0_k': k}),
                         budget_s=B, must_cover=mc, prio=10 if k == 2 else 2))
+    # n=3 with one symbolic decision (fold / call / raise x): blinds 1/2 concrete, stacks symbolic
+    for code in ('NT', 'F7S'):
+        for k in range(3 if code == 'NT' else 2):
+            pre = {'d0_k': k} if code == 'NT' else {'d0_bring': bool(k)}
+            parts = [[c] for c in tri('s1', 's2')] if (code == 'NT' and k == 2) else [None]
+            for pi, part in enumerate(parts):
+                out.append(dict(name=f'a/{code}/n3/d1/T/concrete-blinds/k{k}' + ('' if part is None else f'/p{pi}'),
+                                fn='h_standard',
+                                params=dict(code=code, n=3, depth=1, mode='T', deck=deck, ante_kind='none',
+                                            concrete_blinds=True, _preset=pre, part=part),
+                                budget_s=B, must_cover=mc, prio=9))
     # (d) integer rake, (b) per-player antes with trimming off
     out.append(dict(name='d/NT/n2/d1/rake10', fn='h_standard',
                     params=dict(code='NT', n=2, depth=1, mode='C', deck=deck, rake_d=10,
